@@ -27,6 +27,8 @@ def setup():
     # stdout of the library is captured (C03/C16 read it); nothing else is replaced in method / process / search_data
     for m in (mods.method, mods.process, mods.sd):
         shims.install(m, print=_rec_print)
+        if hasattr(m, 'math'):          # not used on the pinned tree; a change that starts using it is executed with the exact shim
+            shims.install(m, math=st['ms'])
     _ST.update(mods=mods, evo=st, FnProblem=an.problem_class(mods))
     return _ST
 
